@@ -131,6 +131,9 @@ func judge(c Case, w *vkit.W) {
 func TestCheck(t *testing.T) {
 	r := vkit.Start("C11")
 	defer r.Finish(t)
+	if r.ReplayCold() {
+		return
+	}
 	if r.Replay != "" {
 		var c Case
 		if err := r.LoadReplay(&c); err != nil {
@@ -329,6 +332,8 @@ func TestCheck(t *testing.T) {
 		})
 	})
 	r.Sampled()
+
+	r.ColdPhase(coldFirst)
 
 	r.Phase("E: rapid byte strings and dates", func() {
 		r.Rapid(t, "rapid-binary", 0, r.Pick(20000, 300000), func(rt *rapid.T, w *vkit.W) vkit.RapidCase {
